@@ -151,7 +151,7 @@ def main():
             "guard": "XCRYPT_VERIF",
             "enable": "tools/build.sh compiles /repo's working tree with -DXCRYPT_VERIF into a private libxcv.so in scratch",
             "baseline_off_cmd": "make -C /repo -j8 check",
-            "source_commits": ["123a50e", "0c7f69d", "7b93172"],
+            "source_commits": ["123a50e", "0c7f69d", "7b93172", "4551f94"],
             "add_only": True,
         },
         "engines": [{"name": "xcv-tla", "path": "check",
